@@ -9,6 +9,7 @@ import (
 	"io"
 	"os"
 	"reflect"
+	"runtime/debug"
 	"sort"
 	"strings"
 	"time"
@@ -56,17 +57,21 @@ type c15Case struct {
 	ViaNode    bool      `json:"viaNode"` // successor is a lambda node instead of END
 	Decls      []c15Decl `json:"decls"`   // in declaration order
 	Stream     string    `json:"stream"`  // how the generator chose the mappings (valid|overlap|malformed)
+	// the embedded fields of the struct types of the menu: (struct type name, field name)
+	Emb [][]string `json:"emb,omitempty"`
 }
 
 type c15Run struct {
 	Class string `json:"class"` // ok | err | panic | hang
 	Val   c15J   `json:"val,omitempty"`
 	Info  string `json:"info,omitempty"` // panic class (never compared)
+	Side  string `json:"side,omitempty"` // where a panic was raised: source (extraction) | target (assignment); never compared
 }
 
 type c15Model struct {
 	Compile      string   `json:"compile"`
 	OverlapFree  bool     `json:"overlapFree"`
+	Promoted     bool     `json:"promoted"` // some segment of some path is a promoted selector
 	Invoke       *c15Run  `json:"invoke,omitempty"`
 	Stream       *c15Run  `json:"stream,omitempty"`
 	StreamChunks []c15Run `json:"streamChunks,omitempty"`
@@ -125,12 +130,26 @@ func c15PanicClass(p any) string {
 		return "interface-conversion"
 	case strings.Contains(s, "nil pointer dereference"):
 		return "nil-deref"
+	case strings.Contains(s, "nil pointer to embedded struct"):
+		return "nil-embedded-pointer"
 	case strings.Contains(s, "reflect:"):
 		return "reflect-other"
 	case s == "impossible":
 		return "eino-impossible" // a stream of the wrong chunk type reached a typed reader
 	}
 	return "other"
+}
+
+// c15PanicSide: which half of the field mapping code a panic was raised in, read off the stack
+// at the time of the recover (extraction along the source path / assignment along the target path).
+func c15PanicSide(stack string) string {
+	switch {
+	case strings.Contains(stack, "compose.checkAndExtractFromField") || strings.Contains(stack, "compose.takeOne"):
+		return "source"
+	case strings.Contains(stack, "compose.assignOne") || strings.Contains(stack, "compose.checkAndExtractToField") || strings.Contains(stack, "compose.convertTo"):
+		return "target"
+	}
+	return "unknown"
 }
 
 func c15RunT[I, T any](c *c15Case, vals []reflect.Value) *c15Impl {
@@ -193,8 +212,15 @@ func c15RunT[I, T any](c *c15Case, vals []reflect.Value) *c15Impl {
 	for i := 0; i < c15Repeats; i++ {
 		var run c15Run
 		finished := false
+		side := ""
 		panicked, pv := vh.Safely(func() {
 			finished = vh.WithTimeout(20*time.Second, func() {
+				defer func() {
+					if p := recover(); p != nil {
+						side = c15PanicSide(string(debug.Stack()) + fmt.Sprint(p))
+						panic(p)
+					}
+				}()
 				out, err := r.Invoke(ctx, input)
 				if err != nil {
 					run = c15Run{Class: "err"}
@@ -205,7 +231,7 @@ func c15RunT[I, T any](c *c15Case, vals []reflect.Value) *c15Impl {
 			})
 		})
 		if panicked {
-			run = c15Run{Class: "panic", Info: c15PanicClass(pv)}
+			run = c15Run{Class: "panic", Info: c15PanicClass(pv), Side: side}
 			c15Debug("invoke panic: %.300v", pv)
 		} else if !finished {
 			run = c15Run{Class: "hang"}
@@ -226,8 +252,15 @@ func c15RunT[I, T any](c *c15Case, vals []reflect.Value) *c15Impl {
 		var run c15Run
 		var chunks []c15J
 		finished := false
+		side := ""
 		panicked, pv := vh.Safely(func() {
 			finished = vh.WithTimeout(20*time.Second, func() {
+				defer func() {
+					if p := recover(); p != nil {
+						side = c15PanicSide(string(debug.Stack()) + fmt.Sprint(p))
+						panic(p)
+					}
+				}()
 				sr, err := r.Stream(ctx, input)
 				if err != nil {
 					run = c15Run{Class: "err"}
@@ -251,7 +284,7 @@ func c15RunT[I, T any](c *c15Case, vals []reflect.Value) *c15Impl {
 			})
 		})
 		if panicked {
-			run = c15Run{Class: "panic", Info: c15PanicClass(pv)}
+			run = c15Run{Class: "panic", Info: c15PanicClass(pv), Side: side}
 			c15Debug("stream panic: %.300v", pv)
 		} else if !finished {
 			run = c15Run{Class: "hang"}
@@ -413,7 +446,13 @@ func c15Shape(c *c15Case) string {
 				}
 				switch x.Kind() {
 				case reflect.Struct:
-					x = x.FieldByName(m.From[i])
+					if sf, ok := x.Type().FieldByName(m.From[i]); !ok {
+						x = reflect.Value{}
+					} else if fv, err := x.FieldByIndexErr(sf.Index); err != nil {
+						x = reflect.Value{}
+					} else {
+						x = fv
+					}
 				case reflect.Map:
 					x = x.MapIndex(reflect.ValueOf(m.From[i]))
 				default:
@@ -435,15 +474,61 @@ func c15Shape(c *c15Case) string {
 	return s
 }
 
+// c15StaticTag: what is special about the static types the paths of the case are resolved
+// against: a path that goes through a pointer to a map.
+func c15StaticTag(c *c15Case) string {
+	through := func(rt reflect.Type, path []string) bool {
+		for _, seg := range path {
+			if rt.Kind() == reflect.Map {
+				rt = rt.Elem()
+				continue
+			}
+			if rt.Kind() == reflect.Ptr {
+				for rt.Kind() == reflect.Ptr {
+					rt = rt.Elem()
+				}
+				if rt.Kind() == reflect.Map {
+					return true
+				}
+			}
+			if rt.Kind() != reflect.Struct {
+				return false
+			}
+			f, ok := rt.FieldByName(seg)
+			if !ok {
+				return false
+			}
+			rt = f.Type
+		}
+		return false
+	}
+	tt := c15Types[c.TargetName]
+	for _, d := range c.Decls {
+		st := c15Types[d.TyName]
+		for _, m := range d.Maps {
+			if (tt != nil && through(tt.rt, m.To)) || (st != nil && through(st.rt, m.From)) {
+				return ":through-pointer-to-map"
+			}
+		}
+	}
+	return ""
+}
+
 func c15Compare(c *c15Case, model *c15Model, impl *c15Impl) []c15Finding {
 	var fs []c15Finding
 	if impl.BuildFailed != "" {
 		return []c15Finding{{"C15:harness:build", impl.BuildFailed}}
 	}
 	if impl.Compile != model.Compile {
-		reason := "static"
+		reason := "static" + c15StaticTag(c)
 		if !model.OverlapFree {
-			reason = "overlap:" + c15OverlapShape(c)
+			shape := c15OverlapShape(c)
+			if shape == "none" {
+				// the declared paths are textually unrelated, the slots they denote are not: a
+				// promoted selector next to the explicit path (or a prefix / an extension of it)
+				shape = "promoted-alias"
+			}
+			reason = "overlap:" + shape
 		}
 		fs = append(fs, c15Finding{fmt.Sprintf("C15:compile:impl=%s:model=%s:%s", impl.Compile, model.Compile, reason),
 			fmt.Sprintf("Workflow.Compile: implementation %s (%s), model %s (targets overlap-free: %v)", impl.Compile, impl.CompileErr, model.Compile, model.OverlapFree)})
@@ -467,7 +552,29 @@ func c15Compare(c *c15Case, model *c15Model, impl *c15Impl) []c15Finding {
 	if impl.Compile != "accept" {
 		return nil
 	}
+	// one finding per case for a panic on a nil embedded pointer (reflect FieldByName walks through
+	// embedded pointers without looking); what else differs in such a case is a consequence of it
+	// (another outcome in another run, an error where the panic is recovered)
+	embSide := ""
+	if impl.Stream != nil && impl.Stream.Class == "panic" && impl.Stream.Info == "nil-embedded-pointer" {
+		embSide = impl.Stream.Side
+	}
+	for i := len(impl.Invoke) - 1; i >= 0; i-- {
+		if r := impl.Invoke[i]; r.Class == "panic" && r.Info == "nil-embedded-pointer" {
+			embSide = r.Side
+		}
+	}
+	if embSide != "" {
+		what := "a promoted target field behind an embedded pointer: the run panics (reflect: indirection through nil pointer to embedded struct) instead of instantiating the pointer like every other pointer on a target path"
+		if embSide == "source" {
+			what = "a promoted source field behind a nil embedded pointer: the run panics (reflect: indirection through nil pointer to embedded struct) instead of returning an error like for every other nil pointer on a source path"
+		}
+		return []c15Finding{{"C15:promoted:nil-embedded-pointer:" + embSide, what}}
+	}
 	shape := c15Shape(c)
+	if model.Promoted {
+		shape += ":promoted"
+	}
 	// determinism
 	if len(impl.Invoke) > 1 {
 		fs = append(fs, c15Finding{"C15:invoke:nondeterministic", fmt.Sprintf("%d different Invoke outcomes in %d runs of one compiled workflow", len(impl.Invoke), impl.InvokeRuns)})
@@ -628,6 +735,12 @@ func c15One(ctx *vh.Ctx, c *c15Case, count bool) ([]c15Finding, string, error) {
 		ctx.Res.Dist("gen=" + c.Stream)
 		ctx.Res.Dist("compile=" + impl.Compile)
 		ctx.Res.Dist(fmt.Sprintf("overlapFree=%v", model.OverlapFree))
+		if model.Promoted {
+			ctx.Res.Dist("promoted-selector")
+		}
+		if tag := c15StaticTag(c); tag != "" {
+			ctx.Res.Dist("path" + tag)
+		}
 		if len(impl.Invoke) > 0 {
 			ctx.Res.Dist("invoke=" + impl.Invoke[0].Class)
 		}
@@ -699,12 +812,18 @@ func c15Pick(r *vh.Rand, names []string, weights []int) string {
 }
 
 var (
-	c15TargetNames   = []string{"Top", "PTop", "Mid", "PMid", "MapAny", "MapStr", "MapLeaf", "MapPMid", "MapMid", "Any", "Leaf", "Str"}
-	c15TargetWeights = []int{32, 10, 10, 5, 10, 5, 5, 5, 6, 6, 4, 2}
-	c15SourceNames   = []string{"Top", "PTop", "Mid", "PMid", "Leaf", "PLeaf", "MapAny", "MapStr", "MapLeaf", "MapPMid"}
-	c15SourceWeights = []int{38, 10, 15, 6, 5, 3, 10, 5, 4, 4}
-	c15DynTypes      = []reflect.Type{reflect.TypeOf(""), reflect.TypeOf(0), reflect.TypeOf(C15Leaf{}), reflect.TypeOf(&C15Leaf{}),
-		reflect.TypeOf(map[string]any{}), reflect.TypeOf(map[string]string{}), reflect.TypeOf(C15Mid{}), reflect.TypeOf(&C15Mid{})}
+	c15TargetNames = []string{"Top", "PTop", "Mid", "PMid", "MapAny", "MapStr", "MapLeaf", "MapPMid", "MapMid", "Any", "Leaf", "Str",
+		"EmbV", "PEmbV", "EmbP", "PEmbP", "Emb2", "PEmb2P", "Wrap", "PM", "PPM", "MapPMap", "MapEmbV"}
+	c15TargetWeights = []int{32, 10, 10, 5, 10, 5, 5, 5, 6, 6, 4, 2,
+		6, 3, 4, 2, 5, 3, 10, 4, 2, 2, 3}
+	c15SourceNames = []string{"Top", "PTop", "Mid", "PMid", "Leaf", "PLeaf", "MapAny", "MapStr", "MapLeaf", "MapPMid",
+		"EmbV", "PEmbV", "EmbP", "PEmbP", "Emb2", "PEmb2P", "Wrap", "PM", "PPM", "MapPMap", "MapEmbV"}
+	c15SourceWeights = []int{38, 10, 15, 6, 5, 3, 10, 5, 4, 4,
+		7, 3, 5, 2, 6, 4, 12, 4, 2, 2, 3}
+	c15StartNames = []string{"Top", "Top", "MapAny", "Wrap", "PEmbP"}
+	c15DynTypes   = []reflect.Type{reflect.TypeOf(""), reflect.TypeOf(0), reflect.TypeOf(C15Leaf{}), reflect.TypeOf(&C15Leaf{}),
+		reflect.TypeOf(map[string]any{}), reflect.TypeOf(map[string]string{}), reflect.TypeOf(C15Mid{}), reflect.TypeOf(&C15Mid{}),
+		reflect.TypeOf(C15EmbV{}), reflect.TypeOf(&C15EmbP{}), reflect.TypeOf(&C15Emb2{}), reflect.TypeOf(&map[string]string{})}
 )
 
 func c15GenVal(r *vh.Rand, rt reflect.Type, depth int) reflect.Value {
@@ -752,7 +871,7 @@ func c15Compatible(src, dst reflect.Type) bool {
 }
 
 func c15GenCase(r *vh.Rand) *c15Case {
-	c := &c15Case{Stream: "valid"}
+	c := &c15Case{Stream: "valid", Emb: c15EmbTable}
 	c.TargetName = c15Pick(r, c15TargetNames, c15TargetWeights)
 	tt := c15Types[c.TargetName]
 	c.Target = tt.desc
@@ -770,7 +889,7 @@ func c15GenCase(r *vh.Rand) *c15Case {
 		name := fmt.Sprintf("p%d", i)
 		if i == 0 && startPred {
 			// START itself is a mapped predecessor: its output is the workflow input
-			tn = []string{"Top", "Top", "MapAny"}[r.Intn(3)]
+			tn = c15StartNames[r.Intn(len(c15StartNames))]
 			name = compose.START
 		}
 		st := c15Types[tn]
@@ -951,13 +1070,27 @@ func c15Fixed() []*c15Case {
 	vNil := reflect.ValueOf(C15Top{S: "s", Mid: C15Mid{S: "mid"}})
 	vStr := reflect.ValueOf(C15Top{S: "s", A: "hello"})
 	mkT := func(target string, val reflect.Value, groups ...[]c15Map) *c15Case {
-		c := &c15Case{TargetName: target, Target: c15Types[target].desc, Stream: "fixed"}
+		c := &c15Case{TargetName: target, Target: c15Types[target].desc, Stream: "fixed", Emb: c15EmbTable}
 		for i, g := range groups {
 			c.Decls = append(c.Decls, c15Decl{Pred: fmt.Sprintf("p%d", i), TyName: "Top", Ty: top.desc, Val: c15Enc(val), Maps: g})
 		}
 		return c
 	}
 	mk := func(val reflect.Value, groups ...[]c15Map) *c15Case { return mkT("Top", val, groups...) }
+	// one predecessor of the named type holding val, one AddInput call
+	mkS := func(target, src string, val any, maps ...c15Map) *c15Case {
+		st := c15Types[src]
+		sv := reflect.New(st.rt).Elem()
+		sv.Set(reflect.ValueOf(val))
+		return &c15Case{TargetName: target, Target: c15Types[target].desc, Stream: "fixed", Emb: c15EmbTable,
+			Decls: []c15Decl{{Pred: "p0", TyName: src, Ty: st.desc, Val: c15Enc(sv), Maps: maps}}}
+	}
+	embV := C15EmbV{C15Base: C15Base{ID: "id-1", N: 7, S: "inner", PL: &C15Leaf{S: "pl", N: 2}}, Name: "nm", S: "outer"}
+	emb2 := C15Emb2{C15EmbV: embV, X: "x"}
+	wrap := C15Wrap{S: "w", E: embV, PE: &embV, E2: emb2}
+	km, ki := map[string]string{"k1": "v"}, map[string]int{"k1": 5}
+	pki := &ki
+	pm := C15PM{S: "s", M: &km, PPM: &pki, MPM: map[string]*map[string]int{"k1": {"k2": 9}}}
 	m := func(from, to string) c15Map {
 		sp := func(s string) []string {
 			if s == "" {
@@ -998,6 +1131,40 @@ func c15Fixed() []*c15Case {
 		mkT("MapStr", vNil, []c15Map{m("A", "")}),
 		// interface-typed successor input, no key present in the only stream chunk
 		mkT("Any", vNil, []c15Map{m("MS.nokey", "k1")}),
+
+		// promoted source fields (embedded by value, one and two levels, behind a struct held by
+		// value / by pointer, shadowed name) into interface-typed holes and into typed fields
+		mkS("MapAny", "Wrap", wrap, m("E.ID", "k1"), m("PE.N", "k2"), m("E2.ID", "x"), m("E.Name", "k1x")),
+		mkS("Leaf", "EmbV", embV, m("ID", "S"), m("N", "N")),
+		mkS("MapAny", "Emb2", emb2, m("N", "k1"), m("S", "k2"), m("C15Base.S", "x"), m("PL.S", "k1x")),
+		mkS("MapStr", "PEmbV", &embV, m("ID", "k1"), m("C15Base.ID", "k2")),
+		// … through a non-nil / a nil embedded pointer
+		mkS("MapAny", "EmbP", C15EmbP{C15Base: &C15Base{ID: "p", N: 4}, Name: "n"}, m("ID", "k1"), m("N", "k2")),
+		mkS("MapAny", "EmbP", C15EmbP{Name: "n"}, m("ID", "k1")),
+		// … below an interface value
+		mkS("MapAny", "Wrap", C15Wrap{A: embV}, m("A.ID", "k1"), m("A.C15Base.N", "k2")),
+		// promoted target fields: embedded by value, by pointer, two levels by pointer, in a map entry
+		mkS("EmbV", "Leaf", leaf, m("S", "ID"), m("N", "N"), m("S", "S")),
+		mkS("Emb2", "Leaf", leaf, m("S", "ID"), m("S", "Name"), m("S", "X")),
+		mkS("EmbP", "Leaf", leaf, m("S", "ID")),
+		mkS("PEmb2P", "Leaf", leaf, m("S", "ID"), m("", "L")),
+		mkS("MapEmbV", "Leaf", leaf, m("S", "k1.ID"), m("N", "k1.N"), m("S", "k2.C15Base.S")),
+		// a promoted selector next to the embedded struct / next to its own explicit path: an overlap
+		mkS("EmbV", "EmbV", embV, m("Name", "ID"), m("C15Base", "C15Base")),
+		mkS("EmbV", "EmbV", embV, m("C15Base", "C15Base"), m("Name", "ID")),
+		mkS("EmbV", "EmbV", embV, m("Name", "ID"), m("ID", "C15Base.ID")),
+		mkS("Emb2", "EmbV", embV, m("", "C15EmbV"), m("Name", "N")),
+		// shadowing: `S` and `C15Base.S` are different fields, no overlap
+		mkS("EmbV", "EmbV", embV, m("Name", "S"), m("ID", "C15Base.S")),
+		// pointers to maps: mapped as a whole; a path through one cannot be walked and is rejected
+		mkS("PM", "PM", pm, m("M", "M"), m("PPM", "PPM"), m("MPM", "MPM")),
+		mkS("PM", "Leaf", leaf, m("S", "M.k1")),
+		mkS("PM", "Leaf", leaf, m("N", "PPM.k1")),
+		mkS("Leaf", "PM", pm, m("M.k1", "S")),
+		mkS("Leaf", "PM", pm, m("PPM.k1", "N")),
+		mkS("MapPMap", "Leaf", leaf, m("N", "k1.k2")),
+		mkS("Leaf", "PM", pm, m("MPM.k1.k2", "N")),
+		mkS("MapAny", "Wrap", C15Wrap{PPM: &pm}, m("PPM.M.k1", "k1")),
 	}
 }
 
